@@ -244,4 +244,143 @@ theorem run_suffix : ∀ (ops : List Op) (s : Scanner), (∀ op ∈ ops, Op.noRe
     simp only [Scanner.runOps]
     exact (step_suffix s op (hops op (by simp))).trans (ih _ (fun o ho => hops o (by simp [ho])))
 
+/-! ### the tokens seen so far are the reference fields of the consumed prefix -/
+
+/-- the transducer on a prefix of the input: tokens emitted, state and current token afterwards
+    (no end-of-input treatment) -/
+def feed : St → Bytes → Bytes → List Bytes × St × Bytes
+  | st, acc, [] => ([], st, acc)
+  | st, acc, c :: rest =>
+    match update st (classOf c) with
+    | (st', .push) => feed st' (c :: acc) rest
+    | (st', .xpush) => feed st' ((xpushBytes c).reverse ++ acc) rest
+    | (st', .drop) => feed st' acc rest
+    | (st', .emit) => let r := feed st' [] rest; (acc.reverse :: r.1, r.2)
+    | (_, .panic) => ([], .stNone, [])
+
+theorem feed_append : ∀ (a : Bytes) (st : St) (acc b : Bytes), st ≠ .stNone →
+    feed st acc (a ++ b) =
+      ((feed st acc a).1 ++ (feed (feed st acc a).2.1 (feed st acc a).2.2 b).1,
+       (feed (feed st acc a).2.1 (feed st acc a).2.2 b).2) := by
+  intro a
+  induction a with
+  | nil => intro st acc b _; simp [feed]
+  | cons c a ih =>
+    intro st acc b hst
+    have hcl := update_closed st (classOf c) hst
+    rcases hu : update st (classOf c) with ⟨st', x⟩
+    rw [hu] at hcl
+    cases x <;> simp only [List.cons_append, feed, hu]
+    case push => exact ih _ _ _ hcl.1
+    case xpush => exact ih _ _ _ hcl.1
+    case drop => exact ih _ _ _ hcl.1
+    case emit => rw [ih _ _ _ hcl.1]
+    case panic => exact absurd rfl hcl.2
+
+theorem run_of_feed : ∀ (a : Bytes) (st : St) (acc : Bytes), st ≠ .stNone →
+    run st acc a = ((feed st acc a).1 ++ (run (feed st acc a).2.1 (feed st acc a).2.2 []).1,
+                    (run (feed st acc a).2.1 (feed st acc a).2.2 []).2) := by
+  intro a
+  induction a with
+  | nil => intro st acc _; simp [feed]
+  | cons c a ih =>
+    intro st acc hst
+    have hcl := update_closed st (classOf c) hst
+    rcases hu : update st (classOf c) with ⟨st', x⟩
+    rw [hu] at hcl
+    cases x <;> simp only [feed, run, hu]
+    case push => exact ih _ _ hcl.1
+    case xpush => exact ih _ _ hcl.1
+    case drop => exact ih _ _ hcl.1
+    case emit => rw [ih _ _ hcl.1]; simp only [List.cons_append, run]
+    case panic => exact absurd rfl hcl.2
+
+/-- every `emit` transition lands in `stBreak`… -/
+theorem emit_break (st : St) (cl : Cl) (h : (update st cl).2 = .emit) : (update st cl).1 = .stBreak := by
+  cases st <;> cases cl <;> first | (exact absurd h (by decide)) | rfl
+
+/-- a `Next` that returns a token before the end of the input has consumed a prefix on which the
+    transducer emits exactly that token and is back between words -/
+theorem nextLoop_emit (tail : Tail) : ∀ (rem : Bytes) (st : St) (acc : Bytes), st ≠ .stNone →
+    (nextLoop tail st acc rem).2 = .ret true → (nextLoop tail st acc rem).1.err = .nil →
+    ∃ pre, pre ++ (nextLoop tail st acc rem).1.rem = rem ∧
+      feed st acc pre = ([(nextLoop tail st acc rem).1.cur], .stBreak, []) ∧
+      (nextLoop tail st acc rem).1.st = .stBreak ∧ (nextLoop tail st acc rem).1.tail = tail := by
+  intro rem
+  induction rem with
+  | nil => intro st acc _; cases tail <;> simp [nextLoop]
+  | cons c r ih =>
+    intro st acc hst
+    have hcl := update_closed st (classOf c) hst
+    have hem := emit_break st (classOf c)
+    rcases hu : update st (classOf c) with ⟨st', x⟩
+    rw [hu] at hcl hem
+    cases x <;> simp only [nextLoop, hu]
+    case emit =>
+      intro _ _
+      have : st' = .stBreak := hem rfl
+      subst this
+      exact ⟨[c], by simp [feed, hu]⟩
+    case panic => simp
+    all_goals
+      intro h1 h2
+      obtain ⟨pre, e1, e2, e3, e4⟩ := ih st' _ hcl.1 h1 h2
+      exact ⟨c :: pre, by simp [e1], by simp only [feed, hu]; exact e2, e3, e4⟩
+
+/-- `k` calls of `Next`, each returning a token before the end of the input (`Err() == nil`):
+    the scanner afterwards and the tokens, or `none` if some call did not -/
+def nexts : Nat → Scanner → Option (Scanner × List Bytes)
+  | 0, s => some (s, [])
+  | k + 1, s =>
+    match s.next with
+    | (s', .ret true) =>
+      if s'.err = .nil then
+        match nexts k s' with
+        | some (s'', ts) => some (s'', s'.cur :: ts)
+        | none => none
+      else none
+    | _ => none
+
+theorem nexts_feed : ∀ (k : Nat) (s s' : Scanner) (ts : List Bytes),
+    s.err = .nil → s.st = .stBreak → nexts k s = some (s', ts) →
+    ∃ consumed, consumed ++ s'.rem = s.rem ∧ feed .stBreak [] consumed = (ts, .stBreak, []) ∧
+      s'.tail = s.tail := by
+  intro k
+  induction k with
+  | zero =>
+    intro s s' ts _ _ h
+    simp only [nexts, Option.some.injEq, Prod.mk.injEq] at h
+    obtain ⟨rfl, rfl⟩ := h
+    exact ⟨[], by simp [feed]⟩
+  | succ k ih =>
+    intro s s' ts he hst h
+    rw [nexts] at h
+    rcases hn : s.next with ⟨s1, o⟩
+    rw [hn] at h
+    cases o with
+    | panic => simp at h
+    | ret b =>
+      cases b
+      · simp at h
+      · simp only at h
+        by_cases he1 : s1.err = .nil
+        · simp only [he1, if_true] at h
+          rcases hk : nexts k s1 with _ | ⟨s2, ts2⟩
+          · rw [hk] at h; simp at h
+          · rw [hk] at h
+            simp only [Option.some.injEq, Prod.mk.injEq] at h
+            obtain ⟨rfl, rfl⟩ := h
+            have hl := next_live s he
+            rw [hn] at hl
+            have hA := nextLoop_emit s.tail s.rem s.st [] (by rw [hst]; decide)
+            rw [← hl] at hA
+            obtain ⟨pre, e1, e2, e3, e4⟩ := hA rfl he1
+            simp only at e1 e2 e3 e4
+            obtain ⟨c2, f1, f2, f3⟩ := ih s1 s2 ts2 he1 e3 hk
+            refine ⟨pre ++ c2, by rw [List.append_assoc, f1, e1], ?_, f3.trans e4⟩
+            rw [hst] at e2
+            rw [feed_append pre .stBreak [] c2 (by decide), e2]
+            simp [f2]
+        · simp [he1] at h
+
 end MdsVerif.Proofs.ShellScanner
